@@ -54,7 +54,7 @@ type mapSite struct {
 func main() {
 	dir := flag.String("dir", "", "repository copy to instrument in place")
 	rep := flag.String("report", "", "json report path")
-	yieldPkgs := flag.String("yield", "quadtree,planar", "packages (relative) to get statement yields")
+	yieldPkgs := flag.String("yield", ".,quadtree,planar", "packages (relative) to get statement yields; \".\" is the root package orb")
 	mapPkgs := flag.String("maps", "encoding/mvt,geojson,maptile,maptile/tilecover", "packages (relative) to get the map seam")
 	flag.Parse()
 	if *dir == "" {
@@ -66,7 +66,10 @@ func main() {
 	mp := map[string]bool{}
 	var patterns []string
 	for _, p := range strings.Split(*yieldPkgs, ",") {
-		if p != "" {
+		if p == "." {
+			yp[orbPath] = true
+			patterns = append(patterns, ".")
+		} else if p != "" {
 			yp[orbPath+"/"+p] = true
 			patterns = append(patterns, "./"+p)
 		}
@@ -208,7 +211,7 @@ func main() {
 					changed = true
 					needImport = true
 					r.YieldSites += site - n0
-					r.YieldPerPkg[strings.TrimPrefix(pkg.PkgPath, orbPath+"/")] += site - n0
+					r.YieldPerPkg[strings.TrimPrefix(strings.TrimPrefix(pkg.PkgPath, orbPath), "/")+"."] += site - n0
 				}
 			}
 			if !changed {
